@@ -118,6 +118,17 @@ Theorem C14_oracle_ref :
 Proof. exact thm_oracle_ref. Qed.
 Print Assumptions C14_oracle_ref.
 
+(** Portability: the character classes the C computes (the tables of Gen/GenAddr.v, on which all of the above
+    rests) are the same whether char is signed (this compiler) or unsigned (e.g. ARM Linux); the [_ALT] tables
+    are the C expressions evaluated with the other signedness.  (With fixes/C14-quoted-8bit-unsigned-char.diff;
+    the unpatched test *t >= 93 admits every 8-bit byte inside a quoted local part where char is unsigned: F-C14-4.) *)
+Theorem C14_char_sign_independent :
+  DV_CHAR_OK_ALT = DV_CHAR_OK /\ DV_LAST_OK_ALT = DV_LAST_OK /\ LP_UNQ_OK_ALT = LP_UNQ_OK
+  /\ LP_Q_OK_ALT = LP_Q_OK /\ LP_ESC_OK_ALT = LP_ESC_OK
+  /\ XT_RANGE_OK_ALT = XT_RANGE_OK /\ XT_HEX_OK_ALT = XT_HEX_OK /\ XT_PLAIN_OK_ALT = XT_PLAIN_OK.
+Proof. exact thm_char_sign. Qed.
+Print Assumptions C14_char_sign_independent.
+
 (** the hypotheses are met by non-trivial inputs *)
 Definition ex_line : bytes :=     (* @a.example.org,@b.example.org:Foo@Bar.example.com> x *)
   [64;97;46;101;120;97;109;112;108;101;46;111;114;103;44;64;98;46;101;120;97;109;112;108;101;46;111;114;103;58;
